@@ -39,7 +39,8 @@ def setup_env():
     if e.get("VERIF_KEEP_THREAD_ENV") != "1":  # C03 varies these on purpose
         for k in ("OMP_NUM_THREADS", "MKL_NUM_THREADS", "OPENBLAS_NUM_THREADS", "NUMBA_NUM_THREADS"):
             e[k] = "1"
-    e["TZ"] = "UTC"
+    if e.get("VERIF_KEEP_TZ") != "1":  # C03 varies the process's own timezone on purpose
+        e["TZ"] = "UTC"
     e[GUARD] = "1"
     e["PYTHONWARNINGS"] = "ignore"
     e["PYTHONDONTWRITEBYTECODE"] = "1"
